@@ -2177,7 +2177,7 @@ class SourceCatalog:
             ycen = self._ycentroid
             # array coordinates are (row, column) = (y, x)
             bkg = map_coordinates(self._background, (ycen, xcen), order=1,
-                                  mode='nearest')
+                                  mode='nearest', output=float)
 
             mask = np.isfinite(xcen) & np.isfinite(ycen)
             bkg[~mask] = np.nan
